@@ -630,9 +630,9 @@ func (s *mgSim) ctlGet(c client.Reader, cached bool, key client.ObjectKey, obj c
 	case mgFReadErr:
 		s.r.Probe("fault:" + site + ":err")
 		if kind == "pod" && s.cur != nil {
-			// history class of a recorded defect: the pod cannot be read in a reconcile in which the job's reservation sits on the pod's node
+			// history class of a defect repaired by b643541 (same-node check skipped on a pod read error): counted
 			if rv, pod := s.reservationOf(s.cur), s.getPod(key.Name); rv != nil && pod != nil && rv.Status.NodeName != "" && rv.Status.NodeName == pod.Spec.NodeName {
-				s.r.Tag("pod-read-error-while-reservation-on-pod-node")
+				s.r.Probe("pod-read-error-while-reservation-on-pod-node")
 			}
 		}
 		return errMgUnavailable
@@ -1475,12 +1475,23 @@ func (s *mgSim) envProgress(j *mgJob, v int) bool {
 	return false
 }
 
+// deliverDeletes hands queued job delete events to the controller. An informer updates its store before it calls the
+// handlers, so a delete event is delivered only once the cache can no longer serve the job (it was read fresh, or the lag
+// bound has passed, or the settle phase caught the caches up) - never while a stale read could still return the object.
 func (s *mgSim) deliverDeletes() {
-	for len(s.delQ) > 0 {
-		j := s.delQ[0]
-		s.delQ = s.delQ[1:]
+	var keep []*mgJob
+	for _, j := range s.delQ {
 		if j.lastObj == nil {
 			continue
+		}
+		k := "job/" + j.name
+		if h := s.hist[k]; len(h) > 0 {
+			if s.servable(k) < len(h)-1 {
+				keep = append(keep, j) // the cache still holds the job: the event is yet to come
+				s.r.Probe("job-delete-event-delayed-by-cache-lag")
+				continue
+			}
+			s.cursor[k] = len(h) - 1
 		}
 		// what the DeleteFunc predicate registered in New() does with the final state of the object
 		s.cur = j
@@ -1491,6 +1502,7 @@ func (s *mgSim) deliverDeletes() {
 		s.r.Event("job %d delete event handled err=%v", j.idx, err != nil)
 		s.r.Probe("job-delete-event")
 	}
+	s.delQ = keep
 }
 
 func (s *mgSim) reconcile(j *mgJob) {
@@ -1506,9 +1518,9 @@ func (s *mgSim) reconcile(j *mgJob) {
 		(j.lastObj.Spec.ReservationOptions == nil || j.lastObj.Spec.ReservationOptions.ReservationRef == nil) {
 		for _, rn := range j.resvMade {
 			if s.latest("resv", rn) != nil {
-				// history class of a recorded defect: a Reservation was created for the job, spec.reservationRef never reached the
-				// store (lost create acknowledgement or failed job update) and the TTL has passed
-				r.Tag("ttl-passed-with-unpersisted-reservation-ref")
+				// history class of a defect repaired by 150b625: a Reservation was created for the job, spec.reservationRef never
+				// reached the store (lost create acknowledgement or failed job update) and the TTL has passed: counted
+				r.Probe("ttl-passed-with-unpersisted-reservation-ref")
 			}
 		}
 	}
@@ -1704,6 +1716,7 @@ func (s *mgSim) apply(op mgOp) {
 		for k, h := range s.hist { // a fresh informer cache starts from a fresh list
 			s.cursor[k] = len(h) - 1
 		}
+		s.delQ = nil // jobs deleted before the new process listed them produce no delete event in it
 		for _, x := range s.jobs {
 			if x.created && !x.deleted {
 				x.hasDue = false
@@ -1755,6 +1768,7 @@ func (s *mgSim) settle() {
 	for k, h := range s.hist { // the caches catch up
 		s.cursor[k] = len(h) - 1
 	}
+	s.quiesce()
 	for {
 		var next *mgJob
 		for _, j := range s.jobs {
